@@ -605,15 +605,32 @@ Definition unwind_info_for_address (dbg : bool) (c : caps) (f : fde_in) (cx : ct
 
 (* ------------------------------------------------- reuse of one context (C20) *)
 
-(* one use of a context: evaluate an FDE, optionally abandoning the table after k rows *)
-Definition use := (fde_in * option nat)%type.
+(* one use of a context: iterate all rows of an FDE, abandon the table after k rows, or
+   look one address up (which abandons the table at the row found) *)
+Inductive how : Type :=
+| Rows (limit : option nat)
+| At (a : N).
+Definition use := (fde_in * how)%type.
+
+Definition use_ctx (dbg : bool) (c : caps) (u : use) (cx : ctx) : (list row * outcome) * ctx :=
+  match snd u with
+  | Rows lim => fde_rows_lim lim dbg c (fst u) cx
+  | At a =>
+      let '(r, cx') := unwind_info_for_address dbg c (fst u) cx a in
+      (match r with
+       | Ok rw => ([rw], Done)
+       | Err e => ([], Fail e)
+       | Panic => ([], Crash)
+       | OutOfFuel => ([], Fuel)
+       end, cx')
+  end.
 
 Fixpoint run_history (dbg : bool) (c : caps) (h : list use) (cx : ctx)
   : list (list row * outcome) :=
   match h with
   | [] => []
-  | (f, lim) :: rest =>
-      let '(res, cx') := fde_rows_lim lim dbg c f cx in
+  | u :: rest =>
+      let '(res, cx') := use_ctx dbg c u cx in
       res :: run_history dbg c rest cx'
   end.
 
@@ -621,7 +638,7 @@ Fixpoint run_history (dbg : bool) (c : caps) (h : list use) (cx : ctx)
 Definition run_fresh (dbg : bool) (c : caps) (h : list use) : list (list row * outcome) :=
   map (fun u : use =>
          match new_ctx c with
-         | Ok cx => fst (fde_rows_lim (snd u) dbg c (fst u) cx)
+         | Ok cx => fst (use_ctx dbg c u cx)
          | Err e => ([], Fail e)
          | Panic => ([], Crash)
          | OutOfFuel => ([], Fuel)
